@@ -4855,6 +4855,7 @@ class PyCdlib:
                                      self.logical_block_size, True, False,
                                      self.xa, file_mode, time.time())
                 num_bytes_to_add += self._add_child_to_dr(fake_dir_rec)
+                num_bytes_to_add += self._update_rr_ce_entry(fake_dir_rec)
 
                 # The fake dir record doesn't get an entry in the path table
                 # record.
@@ -5080,6 +5081,9 @@ class PyCdlib:
                 if cl.children:
                     raise pycdlibexception.PyCdlibInvalidISO('Parent link should have no children!')
                 num_bytes_to_remove += self._remove_child_from_dr(cl, clindex)
+                if cl.rock_ridge is not None and cl.rock_ridge.dr_entries.ce_record is not None and cl.rock_ridge.ce_block is not None:
+                    cl.rock_ridge.ce_block.remove_entry(cl.rock_ridge.dr_entries.ce_record.offset_cont_area,
+                                                        cl.rock_ridge.dr_entries.ce_record.len_cont_area)
 
                 # We do not remove additional space from the PVD for the
                 # child_link record because it is a 'fake' record that has no
